@@ -1,7 +1,7 @@
 #!/bin/bash
 # refac_test.sh <dir-with-refactorN.diff> <out-log> : every check must stay silent on behaviour-preserving changes
 D=$1; LOG=$2; : > $LOG
-for f in $D/refactor*.diff; do
+for f in $D/*.diff; do
   WT=/tmp/rt/$(basename $f .diff)-$$; mkdir -p /tmp/rt
   git -C /repo worktree add -q --detach $WT HEAD || continue
   if ! (cd $WT && (git apply $f 2>/dev/null || git apply --3way $f 2>/dev/null)); then echo "$(basename $f): APPLY FAILED" >> $LOG; git -C /repo worktree remove --force $WT; continue; fi
